@@ -1058,6 +1058,12 @@ impl<'de> serde::de::Visitor<'de> for ParsedValueSeed<'_> {
     where
         E: serde::de::Error,
     {
+        // `null` means "use the default locale's value" for a whole key, a range can't default one of its values
+        if self.in_range {
+            return Err(serde::de::Error::custom(
+                "null is not allowed as the value of a range",
+            ));
+        }
         Ok(ParsedValue::Default)
     }
 
